@@ -71,3 +71,23 @@ Example ex_sched :
   s_run (0, []) [QWake 2; QWake 5; QWake 2; QTake; QWake 2; QTake; QTake; QTake] =
   [None; None; None; Some 2; None; Some 5; Some 2; None].
 Proof. vm_compute. reflexivity. Qed.
+
+(* a certificate for a table whose scripts spawn downwards (not covered by
+   [wtable], covered by [fuel_suffices]) *)
+Example ex_cert : cert ex_scripts (fun s => match s with 0 => 2 | 1 => 7 | _ => 0 end).
+Proof. intros [|[|s]]; vm_compute; try lia. destruct s; vm_compute; lia. Qed.
+
+(* a script that spawns itself: the budget is exhausted *)
+Example ex_self_spawn :
+  existsb (fun r => match r with LFuel => true | _ => false end)
+          (fst (model_run 60 [[ASpawn 0]] [XSpawn 0; XRun])) = true.
+Proof. vm_compute. reflexivity. Qed.
+
+Example ex_wtable : spawns_up ex_join_scripts /\ fuel_bound (wtable ex_join_scripts) [XSpawn 0; XRun] = 64.
+Proof.
+  split; [|vm_compute; reflexivity].
+  intros [|[|i]] s H; cbn in H.
+  - destruct H as [H|[H|[H|[]]]]; inversion H. lia.
+  - destruct H as [H|[H|[]]]; inversion H.
+  - destruct i; destruct H.
+Qed.
